@@ -511,9 +511,12 @@ def probe_prefixes(inst):
         inp = inst.make(B)
         ex.hyps = [f for _, f in B.hyps]
         return inst.call(inp)
-    with symnp.patched_numpy(extra=patches):
-        for c, _ in ex.run_all(thunk):
-            out.append(list(c.decisions))       # a path that ended before the cut depth
+    try:
+        with symnp.patched_numpy(extra=patches):
+            for c, _ in ex.run_all(thunk):
+                out.append(list(c.decisions))       # a path that ended before the cut depth
+    except EngineGap:
+        return [[]]           # not shardable: the single run reports the engine gap itself (undecided)
     return out + ex.cut_prefixes
 
 
